@@ -99,6 +99,45 @@ def mexpr_instance_case(rnd, g, cg, md, name):
     return None
 
 
+def count_recursive_needle_case(rnd, g, cg, md, name):
+    """count(start, "<N>", "k") for a recursive <N> on a prefix whose open leaves are all labelled <N>: an open <N>
+    leaf is one occurrence now and any number of occurrences later, so only 'already too many' is definite"""
+    R = rt.reach(cg)
+    rec = sorted(k for k in cg if k != "<start>" and k in R.get(k, set()))
+    if not rec:
+        return None
+    N = pick(rnd, rec)
+    T = None
+    for _ in range(4):
+        c = gen.tree(rnd, cg, "<start>", rnd.randint(3, 7), md, bias=0.9)
+        if sum(1 for _, n in rt.nodes(c) if n[0] == N) >= 2 and rt.size(c) <= 90:
+            T = c
+            break
+    if T is None:
+        return None
+    T = rt.assign_ids(T)[0]
+    cands = [p for p, n in rt.nodes(T) if p and n[0] == N and n[1]]
+    if not cands:
+        return None
+    P = T
+    for p in sorted(rnd.sample(cands, min(len(cands), rnd.randint(1, 2))), key=len, reverse=True):
+        try:
+            n = rt.sub(P, p)
+        except Exception:
+            continue
+        if n is not None and n[0] == N and n[1]:
+            P = rt.replace(P, p, [n[0], None, n[2]])
+    if not rt.is_open(P):
+        return None
+    have = sum(1 for _, n in rt.nodes(P) if n[0] == N)
+    k = max(0, have + pick(rnd, [-1, 0, 0, 1, 1, 2]))
+    f = ["count", "start", N, ["s", str(k)]]
+    if chance(rnd, 0.3):
+        f = ["not", f]
+    comps = [gen.complete(rnd, cg, P, depth=rnd.randint(1, 5), md=md) for _ in range(N_COMPLETIONS)]
+    return {"grammar": g, "gname": name, "tree": T, "prefix": P, "completions": comps, "formula": f, "template": "count_recursive_needle"}
+
+
 def generate(rnd, tier):
     r = rnd.random()
     if r > 0.4:
@@ -111,6 +150,10 @@ def generate(rnd, tier):
     md = rt.min_depths(cg)
     if chance(rnd, 0.25):
         case = mexpr_instance_case(rnd, g, cg, md, name)
+        if case is not None:
+            return case
+    if chance(rnd, 0.08):
+        case = count_recursive_needle_case(rnd, g, cg, md, name)
         if case is not None:
             return case
     T = None
@@ -130,7 +173,7 @@ def generate(rnd, tier):
     comps = [gen.complete(rnd, cg, P, depth=rnd.randint(1, 4), md=md) for _ in range(N_COMPLETIONS)]
     trees = [T] + comps
     lits = fml.sample_lits(cg, trees)
-    fg = fml.FGen(rnd, cg, lits, dict(numq=0.0, unused=0.03, count=chance(rnd, 0.25), mexpr=0.5, p_forall=pick(rnd, [0.2, 0.35, 0.5]), mexpr_depth=pick(rnd, [2, 2, 3, 4, 5]),
+    fg = fml.FGen(rnd, cg, lits, dict(numq=(0.9 if chance(rnd, 0.2) else 0.0), unused=0.03, count=chance(rnd, 0.25), mexpr=0.5, p_forall=pick(rnd, [0.2, 0.35, 0.5]), mexpr_depth=pick(rnd, [2, 2, 3, 4, 5]),
                                       connectives=("and", "or", "not", "implies", "iff", "xor")[:rnd.randint(3, 6)]))
     f = fg.formula([("start", "<start>")], rnd.randint(1, 3))
     if chance(rnd, 0.2):
@@ -181,6 +224,8 @@ def judge(case):
         labels.append("template:" + case["template"])
     if any(x[0] == "count" for x in fml.walk(f)):
         labels.append("count")
+    has_numq = any(x[0] in ("forallint", "existsint") for x in fml.walk(f))
+    labels.append("strategy:qe" if has_numq else "strategy:legacy")
     if any(x[0] in ("forall", "exists") and x[4] is not None for x in fml.walk(f)):
         labels.append("mexpr")
     try:
@@ -214,8 +259,23 @@ def judge(case):
         if flags:
             labels.append("completion_not_judged")
             continue
+        if has_numq:
+            # verdicts that hinge on the reading of numeric quantifiers (numerals only vs. all strings: open finding
+            # numq-all-strings, filed under C03) are not judged here
+            try:
+                if fml.sat(cg, c, f, numq_all_ints=True)[0] != e or fml.sat(cg, c, f, numq_min=1)[0] != e:
+                    labels.append("completion_not_judged")
+                    continue
+            except fml.Undecided:
+                continue
         if e != v:
-            root = "nth:" if any(x[0] == "pred" and x[1] == "nth" for x in fml.walk(f)) else ""
+            root = "numq:" if has_numq else "nth:" if any(x[0] == "pred" and x[1] == "nth" for x in fml.walk(f)) else ""
+            if not root and count_needle_on_open_leaf(P, f):
+                # the open finding makes count answer False (never True) on such prefixes: where the constraint is a
+                # bare (negated) count atom only that direction is explained by it
+                bare_pos, bare_neg = f[0] == "count", f[0] == "not" and f[1][0] == "count"
+                if not (bare_pos and v is True) and not (bare_neg and v is False):
+                    root = "count_needle_labelled_open_leaf:"
             if not root and mexpr_below_open_leaf(cg, P, f):
                 root = "mexpr_structure_below_open_leaf:"
             viol.append({"sig": "definite_verdict_contradicted:%s%s" % (root, "true_but_completion_false" if v else "false_but_completion_true"),
@@ -224,6 +284,13 @@ def judge(case):
             break
     return {"labels": labels, "nontrivial": relevant, "violations": viol, "inconclusive": None,
             "sample": {"constraint": text, "prefix": _show(P), "verdict": v}}
+
+
+def count_needle_on_open_leaf(P, f):
+    """the constraint has count(.., "<N>", literal) and the prefix has an open leaf labelled <N> (open finding: the
+    count predicate cannot close such a leaf without 'another' needle, gives up and answers False)"""
+    needles = {x[2] for x in fml.walk(f) if x[0] == "count" and x[3][0] == "s"}
+    return any(n[1] is None and n[0] in needles for _, n in rt.nodes(P))
 
 
 def _through_open(n, mt):
